@@ -146,6 +146,14 @@ def build_unit(unit, bld, wdir, extra_defines=()):
     for i, s in enumerate(unit.spec + unit.lib):
         src = os.path.join(CONTRACTS, s)
         out = os.path.join(wdir, "spec%d.o" % i)
+        if unit.plain and s in unit.spec:
+            # harness-encoded contract: preprocess, hoist OLD() snapshots, compile the result
+            rc, txt, _ = run(["gcc", "-E", "-P", "-DVERIF_PLAIN=1", "-I" + LIB, "-I" + CONTRACTS] + repo_inc() + defines + [src], timeout=120)
+            if rc != 0:
+                raise ToolError("build", "preprocessing failed on spec %s: %s" % (s, txt[-3000:]))
+            src = os.path.join(wdir, "spec%d.plain.c" % i)
+            with open(src, "w") as f:
+                f.write(native_rewrite(txt))
         cmd = ["goto-cc", "-c", "-I" + LIB, "-I" + CONTRACTS] + repo_inc() + defines + [src, "-o", out]
         rc, txt, _ = run(cmd, timeout=300)
         if rc != 0:
@@ -210,6 +218,8 @@ def cbmc_cmd(unit, gb, trace=False, props=()):
     if not unit.malloc_may_fail:
         cmd += ["--no-malloc-may-fail"]
     cmd += unit.cbmc_flags
+    if unit.plain:
+        cmd += ["--drop-unused-functions"]
     if trace:
         cmd += ["--json-ui", "--trace"]
     for p in props:
@@ -428,7 +438,7 @@ def trace_inputs(trace, entry):
     """pull harness input assignments (name, idx, value) from a CBMC json trace"""
     vals = []
     for s in trace or []:
-        if s.get("stepType") != "assignment":
+        if s.get("stepType") != "assignment" or s.get("assignmentType") == "actual-parameter":
             continue
         loc = s.get("sourceLocation", {})
         if loc.get("function") != entry:
